@@ -121,7 +121,13 @@ func pendingAddresses(r db.KeyValueReader) (iter.Seq[felt.Address], func() error
 			iterErr = err
 			return
 		}
-		defer it.Close()
+		// A read error while positioning ends the loop like exhaustion does and is only
+		// reported by Close: without it the addresses not yet yielded would count as migrated.
+		defer func() {
+			if err := it.Close(); err != nil && iterErr == nil {
+				iterErr = err
+			}
+		}()
 
 		for valid := it.First(); valid; valid = it.Next() {
 			key := it.Key()
